@@ -193,6 +193,26 @@ def expectedNamesLast (t : RTab) : Bool :=
 
 def RTab.cmpWF (t : RTab) : Bool := t.readable && fioSorted t.inherit && expectedNamesLast t
 
+/-- the NAME_INHERITED loop of setup_new_frame / setup_inherited_frame (Model.chase) with every runtime entry read the
+    way the C code reads it: through FIND_FUNC_ENTRY on the program's COMPRESSED table -/
+def chaseC (w : World) : Nat → Nat → Nat → Nat → Nat → Option Frame
+  | 0, _, _, _, _ => none
+  | fuel + 1, p, index, fio, vio => do
+    let P ← w.progs[p]?
+    let fl ← P.flags[index]?
+    let c ← compress (RTab.ofProgram P)
+    let e ← findFuncEntry P.inherit c index
+    if hasBit fl nameInherited then
+      match e with
+      | .inh off idx =>
+        let ih ← P.inherit[off]?
+        chaseC w fuel ih.prog idx (fio + ih.fio) (vio + ih.vio)
+      | .defn .. => none
+    else
+      match e with
+      | .defn fi _ => some { prog := p, fidx := fi, fio := fio, vio := vio }
+      | .inh .. => none
+
 /-! ### rendering for the `cmp` line of the harness -/
 
 def renderREntry : REntry → String
